@@ -143,27 +143,24 @@ Qed.
    are kept as given by GeneralConfiguration.parse and interpreted by convert *)
 Definition level_dec (v : json) : res (option Z) := if is_null v then Ok None else do z <- check_level v; Ok (Some z).
 Definition lang_dec (v : json) : res (option text) := if is_null v then Ok None else do s <- check_lang v; Ok (Some s).
-Lemma level_decides : decides KLogLevel level_dec mean_level.
+(* the two steps together: GeneralConfiguration.parse lets None and any str through, convert interprets it *)
+Definition via_str {A} (dec : json -> res A) (v : json) : res A := do x <- dec_str_or_null v; dec x.
+Lemma level_decides : decides KLogLevel (via_str level_dec) mean_level.
 Proof.
   apply (decides_of_exact _ _ (copt CInt)); [| reflexivity |apply copt_inj; [intros a b H; inversion H; reflexivity|discriminate]].
-  intro v. unfold decode, level_dec. destruct (is_null v); [reflexivity|]. destruct (check_level v); reflexivity.
+  intro v. unfold decode, via_str, level_dec. destruct (dec_str_or_null v) as [x|]; [|reflexivity]. cbn [bind].
+  destruct (is_null x); [reflexivity|]. destruct (check_level x); reflexivity.
 Qed.
-Lemma lang_decides : decides KDocumentLang lang_dec mean_text.
+Lemma lang_decides : decides KDocumentLang (via_str lang_dec) mean_text.
 Proof.
   apply (decides_of_exact _ _ (copt CText)); [| reflexivity |exact ctext_inj].
-  intro v. unfold decode, lang_dec. destruct (is_null v); [reflexivity|]. destruct (check_lang v); reflexivity.
+  intro v. unfold decode, via_str, lang_dec. destruct (dec_str_or_null v) as [x|]; [|reflexivity]. cbn [bind].
+  destruct (is_null x); [reflexivity|]. destruct (check_lang x); reflexivity.
 Qed.
-Definition raw (d : list (text * json)) (name : string) (dflt : json) : json :=
-  match obj_get (T name) d with Some v => v | None => dflt end.
-Lemma parse_general_raw d :
-  parse_general d = do pb <- field d "progress_bar" dec_bool true; Ok (raw d "log_level" (JStr (T "INFO")), pb, raw d "document_lang" JNull).
-Proof.
-  unfold parse_general, field, raw, default_general. cbn [fst snd].
-  destruct (obj_get (T "log_level") d); destruct (obj_get (T "progress_bar") d) as [v|]; try destruct (dec_bool v);
-    destruct (obj_get (T "document_lang") d); reflexivity.
-Qed.
-Lemma raw_field {A} d name dflt (dec : json -> res A) (a : A) : dec dflt = Ok a -> dec (raw d name dflt) = field d name dec a.
-Proof. intro H. unfold raw, field. destruct (obj_get (T name) d); [reflexivity|exact H]. Qed.
+Lemma field_via {A} d name dflt (dec : json -> res A) (a : A) :
+  dec_str_or_null dflt = Ok dflt -> dec dflt = Ok a ->
+  field d name (via_str dec) a = do x <- field d name dec_str_or_null dflt; dec x.
+Proof. intros H1 H2. unfold field, via_str. destruct (obj_get (T name) d); [reflexivity|]. cbn [bind]. symmetry. exact H2. Qed.
 (* what convert makes of the parsed general section *)
 Definition level_of (g : option (json * bool * json)) : res (option Z) :=
   match g with Some (ll, _, _) => if is_null ll then Ok None else do z <- check_level ll; Ok (Some z) | None => Ok None end.
@@ -179,20 +176,24 @@ Lemma module_general d : keys_clean "general" d = true ->
 Proof.
   unfold keys_clean. cbn [keys_of String.eqb Ascii.eqb Bool.eqb forallb fst snd]. rewrite andb_true_r. intro C.
   apply andb_true_iff in C as [C1 C]. apply andb_true_iff in C as [C2 C3].
-  rewrite parse_general_raw. unfold spec_general.
+  unfold parse_general, default_general. cbn [fst snd]. unfold spec_general.
   pose proof (field_sval d "log_level" KLogLevel _ _ (Some 20) level_decides C1) as L.
   pose proof (field_sval d "progress_bar" KProgressBar _ _ true (dec_bool_decides KProgressBar eq_refl) C2) as P.
   pose proof (field_sval d "document_lang" KDocumentLang _ _ None lang_decides C3) as G.
-  rewrite <- (raw_field d "log_level" (JStr (T "INFO")) level_dec (Some 20) eq_refl) in L.
-  rewrite <- (raw_field d "document_lang" JNull lang_dec None eq_refl) in G.
-  destruct (sval (JObj d) "progress_bar" KProgressBar mean_bool true) as [pb|].
-  - rewrite P. cbn [bind].
-    destruct (sval (JObj d) "log_level" KLogLevel mean_level (Some 20)) as [lv|].
-    + destruct (sval (JObj d) "document_lang" KDocumentLang mean_text None) as [lang|]; [eauto 6|].
-      right. do 3 eexists. split; [reflexivity|]. right. exact G.
-    + right. do 3 eexists. split; [reflexivity|]. left. exact L.
-  - destruct P as (e & P). rewrite P. cbn [bind].
-    destruct (sval (JObj d) "log_level" KLogLevel mean_level (Some 20)); [destruct (sval (JObj d) "document_lang" KDocumentLang mean_text None)|]; left; eauto.
+  rewrite (field_via d "log_level" (JStr (T "INFO")) level_dec (Some 20) eq_refl eq_refl) in L.
+  rewrite (field_via d "document_lang" JNull lang_dec None eq_refl eq_refl) in G.
+  revert L P G.
+  destruct (sval (JObj d) "log_level" KLogLevel mean_level (Some 20)) as [lv|];
+    destruct (sval (JObj d) "progress_bar" KProgressBar mean_bool true) as [pb|];
+    destruct (sval (JObj d) "document_lang" KDocumentLang mean_text None) as [lang|];
+    destruct (field d "log_level" dec_str_or_null (JStr (T "INFO"))) as [ll|e1];
+    destruct (field d "progress_bar" dec_bool true) as [pb'|e2];
+    destruct (field d "document_lang" dec_str_or_null JNull) as [dl|e3]; cbn [bind]; intros L P G;
+    try discriminate L; try discriminate P; try discriminate G;
+    try (destruct L as (? & L); discriminate L); try (destruct P as (? & P); discriminate P); try (destruct G as (? & G); discriminate G);
+    try (left; eexists; reflexivity).
+  all: try (inversion P; subst; exists ll, dl; repeat split; assumption).
+  all: right; exists ll, pb', dl; (split; [reflexivity|]); first [left; exact L|right; exact G].
 Qed.
 
 (* ------------------------------------------------------------------ sections *)
@@ -374,7 +375,7 @@ Proof.
   destruct (top_ok cfg) eqn:Top.
   2:{ (* the configuration is not an object: no plan, and the first section read fails *)
       assert (N : spec_plan o cfg = None) by (unfold spec_plan; destruct cfg as [[]|]; try discriminate Top; reflexivity).
-      rewrite N. assert (R : read_config "general" parse_general cfg = Raise EAttribute) by (destruct cfg as [[]|]; try discriminate Top; reflexivity).
+      rewrite N. assert (R : read_config "general" parse_general cfg = Raise EValue) by (destruct cfg as [[]|]; try discriminate Top; reflexivity).
       rewrite R. cbn. eauto. }
   rewrite (spec_plan_unfold o cfg Top).
   assert (Cg : section_clean "general" cfg = true).
